@@ -244,13 +244,18 @@ def run(chk):
                 pos, w, box = make_input(c['xs'], c['np'], c['R'], 0, np.float64)
 
                 def build(sc, hook, pos=pos, w=w, box=box, c=c, t=t, hw=hw):
-                    fn = sched.threaded_source(partition_parallel, sc, share=share, overrides={'numba': _NumbaStub()})
+                    fn = sched.threaded_source(partition_parallel, sc, share='*', overrides={'numba': _NumbaStub()})   # every array allocated outside the parallel loops is shared
                     fn.__globals__['__par'] = hook(sc.par)
                     return lambda: tuple(sched.unwrap(x) for x in fn(pos.copy(), c['np'], box, weights=(w.copy() if hw else None), coord=0, nthread=t, sort=False))
 
                 def check(res, pos=pos, w=w, box=box, c=c, hw=hw):
                     return judge(pos, w if hw else None, box, c['np'], 0, False, res, expect_starts=c['starts'])
-                r = sched.explore(build, check, max_schedules=10, seed=chk.seed)
+                try:
+                    r = sched.explore(build, check, max_schedules=10, seed=chk.seed)
+                except Exception as e:  # noqa  (a restructured source the replayer cannot drive is a loss of coverage, not a violation)
+                    if not nsch:
+                        chk.note(f'partition_parallel schedule replay not available: {type(e).__name__}: {str(e)[:200]}')
+                    continue
                 nsch += r['schedules']
                 if r['problem']:
                     chk.violation('schedule-' + key_of(r['problem'], len(c['xs']), t), f'xs={c["xs"]} np={c["np"]} nthread={t} weights={hw}: {r["problem"]}',
